@@ -16,7 +16,7 @@ CLAIMED = {
          "DESIGN.md section 4, C02"),
  "C03": ("exploration", "metamorphic and counter-based testing of generated (also non-terminating) programs under generated budget sets (proptest-driven)",
          "Programs built without the termination rule (while(1), unbounded recursion, repeat 10^9, looping callbacks under every re-entering std function and under host natives, up to three native->script levels) and ordinary generated programs are run under budgets from 1..64, 1..20000 and k-1/k/k+1/k/2 around the complete run's length k. An independent per-dispatch counter (hook) must never exceed the budget; runs with a sufficient budget must reproduce the complete run exactly; insufficient budgets must end in Timeout with a prefix-consistent host log; never-finishing programs must time out under every budget.",
-         "Trusts the hook counter (one increment per dispatched instruction, independent of the budget field) and the isolated-process watchdog for real hangs.",
+         "Trusts the hook counter (one increment per dispatched instruction, independent of the budget field) and the isolated-process watchdog for real hangs. Re-entering natives are reached through the library function, a CallNative card and a dynamic call of the native as a function value.",
          "DESIGN.md section 4, C03"),
  "C04": ("exploration", "generated-input totality testing in isolated worker processes with a watchdog (proptest-driven; fork probes for inputs known to be able to kill the process)",
          "Four generated families: arbitrary card trees through the JSON and YAML loaders into the compiler (and, when they compile, into the VM), structured compile stress around every documented limit (globals, locals, upvalues, functions, card nesting, submodule depth, super chains), run-time stress templates (recursion, wide expressions, numeric boundaries, wrong operand types, cyclic tables, reserved-hash keys, tiny budgets, odd stdlib inputs) and random well-scoped programs under random budget/value-stack/call-stack sizes. A case passes when compile and run return a value; panics are caught per case, signals and hangs by the parent process, which re-runs the case twice in isolation before reporting. Search, not proof.",
@@ -24,7 +24,7 @@ CLAIMED = {
          "DESIGN.md section 4, C04"),
  "C05": ("exploration", "shadow-ledger invariant checking over generated programs, garbage loops and host-API allocator histories (proptest-driven), with an independent reachability walker",
          "Every allocator event (request, alloc, dealloc, refusal - hook) of generated table-heavy programs under limits 4 KiB..1 MiB, of bounded-live-data garbage loops run for n and 10n iterations, and of host-API histories (strings, tables, guards, stack, gc, clear, set_memory_limit) is replayed into a shadow ledger: counter == outstanding charges (+ the request being served), never above the limit, refusals change nothing; after a final collection the live object list must equal the set reachable from stack/globals/frames/open upvalues/guards computed by an independent walker; after clear the counter is 0 and nothing is outstanding; OutOfMemory is accepted only if reachable bytes + request exceed half the limit; garbage loops must not fail for any n.",
-         "The ordered key list of tables and the upvalue list of closures are plain Vecs outside the allocator and are not in the ledger (observation, not asserted). The OOM rule has a factor 2 of slack.",
+         "The ordered key list of tables and the upvalue list of closures are plain Vecs outside the allocator and are not in the ledger (observation, not asserted). The byte estimate of the reachable-bytes OOM rule has a factor 2 of slack; the exact forms of the rule are the schedule differential under a limit (natural trigger vs. collect at every allocation vs. no collection but the one before refusing), the retained-set garbage loops (must not fail when retained bytes + 6 KiB fit) and the retry of every refused host request after an explicit collection.",
          "DESIGN.md section 4, C05"),
  "C06": ("exploration", "differential testing against a by-reference-cell reference interpreter with a closure-biased program generator (proptest-driven)",
          "Same differential as C01 with a generator that creates closures in frames above other values, in loop bodies, nested, in a submodule, and calls each stored closure twice around a write to a visible variable (also through re-entering natives); every closure body logs a unique tag so a wrong body is visible; the reference uses shared Rc cells with a fresh cell per scope entry.",
@@ -36,7 +36,7 @@ CLAIMED = {
          "DESIGN.md section 4, C07"),
  "C15": ("exploration", "planted-fault testing: generated programs with one planted failing card at a generated position/call depth, expected trace computed by an independent child-numbering table (proptest-driven)",
          "An error-free generated program is assembled around one planted fault card (13 run-time and compile-time fault kinds) in a random operand slot, statement shape and nesting (if/else/repeat/while/composite/closure invoked on the spot), at the end of a chain of 0-4 static/dynamic script calls partly in a submodule, always followed by more code. The error kind, trace[0] (index equality and resolution through Module::get_card to the planted CardId) and trace[1..] (call cards innermost to outermost, closure invocations included) are asserted; for compile faults loc must resolve to the planted card. A reference run confirms that the plan reaches the planted card.",
-         "Resource-exhaustion, timeout and unset-variable faults and chains through native re-entry are not planted. One extra trailing trace entry is accepted as the program entry.",
+         "Second family: recursion cycles of 1-2 functions (with / without parameters, locals, pending operands) with planted faults and unset-variable reads at depth 1..7, call-stack / value-stack exhaustion and timeouts; the number of active activations is read from a counter global. Memory exhaustion and chains through native re-entry are not planted. One extra trailing trace entry is accepted as the program entry.",
          "DESIGN.md section 4, C15"),
  "C16": ("exploration", "proptest-driven model-based testing of edit histories against a plain tree-edit model with an independent child-numbering table",
          "Arbitrary modules (every card kind in every slot, unique card ids) and histories of get/insert/remove/replace/swap/walk plus the law pairs insert;remove, replace;replace-back, swap;swap, with indices valid w.r.t. the evolving model or invalid in a specific way; Ok/Err, the resulting id-tree, serde_json text after failed edits and child count/enumeration/lookup agreement are checked after every op.",
@@ -44,7 +44,7 @@ CLAIMED = {
          "DESIGN.md section 4, C16"),
  "C17": ("exploration", "history-based differential testing: a reused VM against newly built VMs, repeated histories, and repetition sweeps (proptest-driven)",
          "Histories of 2-40 steps (run with a budget, clear, set_memory_limit) over one VM with programs ending in every way (Ok, Timeout, OutOfMemory, Stackoverflow, CallStackOverflow, native error, error inside a native->script callback, open upvalues, garbage beyond the collection threshold): every run directly after clear / set_memory_limit is replayed on a newly built VM and must match in observation, dispatched instructions, allocated bytes, next collection threshold, number of collections and value-stack height; each history is executed twice and must give identical observation sequences; repetition sweeps run one program 3..300 times with and (for stack-balanced successful programs) without clear and require every run to equal the first.",
-         "Stack sizes are fixed at 256; generated programs never read a global before assigning it within the same run.",
+         "Stack sizes are fixed at 256; generated programs never read a global before assigning it within the same run; a template does (its only assignment is in a branch not taken), and the set of globals the host finds defined after a run is part of the comparison.",
          "DESIGN.md section 4, C17"),
  "C18": ("exploration", "differential testing of generated native-call programs against a conversion model in the reference interpreter, plus stack-height invariants measured inside re-entering natives (proptest-driven)",
          "Natives with 25 typed signatures (arity 0-4 over every supported parameter type) and value-returning natives are called with arguments of every kind through CallNative, native values + DynamicCall and re-entering natives, from main, from frames above other values and in loops; the reference interpreter applies the documented conversions and predicts recorded parameters, results, TaskFailure wrapping and which parameter must be named as rejected. Re-entry: the harness natives call0/call1/call2 measure value-stack and call-stack heights (hook) around every successful run_function; generated programs re-enter with script functions, capturing closures and natives as callees, nested. Reserved names must be unregistrable.",
@@ -68,7 +68,7 @@ CLAIMED = {
          "DESIGN.md section 4, C10"),
  "C11": ("exploration", "round-trip and differential testing over generated modules, compiled programs and runtime values (proptest-driven)",
          "Generated modules (well-scoped programs incl. >16 globals, arbitrary card trees) are written to JSON and YAML, read back and compiled: the result must be byte-identical / map-equal to compiling the original (or fail with the same variant). Every compiled program is sent through JSON, CBOR and bincode: the decoded program must be field-wise equal as maps, pass the independent bytecode verifier and run to the same observation. Generated values (nested tables up to 60 entries, -0.0, subnormals) go value -> OwnedValue -> each format -> OwnedValue' -> insert into a fresh VM and must be deeply equal with order preserved.",
-         "NaN / infinities excluded (not representable in serde_json); card ids are not serialized by design.",
+         "NaN / infinities excluded (not representable in serde_json); card ids are not serialized by design. Decoded values are inserted into a VM that never collects, one that collects at every allocation and two with small limits (256 KiB, 32 KiB; a value that does not fit is refused, which is not a failure); swept objects are quarantined so a lost part is recognised without reading freed memory.",
          "DESIGN.md section 4, C11"),
  "C12": ("exploration", "proptest-driven model-based testing of operation histories against std HashMap, with controlled-hash keys and fail-at-n allocation fault sweeps",
          "Random histories (<=200 ops) over keys whose hash bytes the generator chooses (collision groups for every capacity of the growth sequence, wrap-around homes, equal-hash twins, the reserved hash 0), compared with std::collections::HashMap after every operation including full get/contains/iter of every key ever used, a per-instance drop ledger and an allocator ledger; one third of the cases re-run the history once per allocation index with that allocation failing (exhaustive over the single failure points of that history). Search, not proof.",
@@ -80,7 +80,7 @@ CLAIMED = {
          "DESIGN.md section 4, C13"),
  "C14": ("exploration", "proptest-driven model-based testing of operation histories against a Vec reference model",
          "Random search over (capacity, history) pairs with a Vec-based bounded-stack model compared after every operation (result, length, full contents, drop ledger); capacities 1..40 with 1-4 over-represented; no proof of absence.",
-         "Trusts the reference model (40 lines) and that clear_until is only called with h <= len; push with exactly one free slot may go either way.",
+         "Trusts the reference model (40 lines) and that clear_until is only called with h <= len; push with exactly one free slot may go either way, but a write at the height must do what push does in the same state (twin stack) and return nil as the old value.",
          "DESIGN.md section 4, C14"),
 }
 REASON_PENDING = "check not built yet in this round (planned in DESIGN.md section 4); not claimed until its check exists"
@@ -122,11 +122,11 @@ manifest = {
         "name": "caoverif",
         "path": "/verif/harness",
         "serves_properties": [c["property_id"] for c in checks],
-        "kind_free_text": "Rust harness: choice-stream generators driven by proptest (TestRunner, fixed seed from VERIF_SEED, failure_persistence off) in 16 isolated worker processes; reference models / reference interpreter as oracles; shrunk failures written as replay files; libFuzzer targets in /verif/fuzz reuse the same decoders",
+        "kind_free_text": "Rust harness: choice-stream generators driven by proptest (TestRunner, fixed seed from VERIF_SEED, failure_persistence off) in 16 isolated worker processes; reference models / reference interpreter as oracles; shrunk failures written as replay files; thorough tier adds a coverage-guided stage: one libFuzzer target per property in /verif/fuzz (cargo-fuzz, AddressSanitizer) over the same decoders and oracles, saved inputs re-confirmed in isolation",
     }],
     "checks": checks,
     "not_applicable": [{"property_id": p, "reason": REASON_PENDING} for p in props if p not in CLAIMED],
-    "notes": "Every check: ./check <ID> quick|thorough rebuilds the harness against /repo's working tree (feature verif-hooks), replays /verif/replays/<ID>/, then runs the generated tier. Exit 0 held, 1 VIOLATION line, 2 build failure / inconclusive. New failing inputs are written under /verif/out/replays/<ID>/ (git-ignored). Known findings: /verif/KNOWN_FINDINGS.txt.",
+    "notes": "Every check: ./check <ID> quick|thorough rebuilds the harness against /repo's working tree (feature verif-hooks), replays /verif/replays/<ID>/, then runs the generated tier (quick: proptest stage; thorough: 40x proptest stage + libFuzzer/ASan stage, DESIGN.md 8.7). Exit 0 held, 1 VIOLATION line, 2 build failure / inconclusive. New failing inputs are written under /verif/out/replays/<ID>/ (git-ignored). Known findings: /verif/KNOWN_FINDINGS.txt.",
 }
 json.dump(manifest, open(os.path.join(ROOT, "MANIFEST.json"), "w"), indent=1)
 print("claimed:", [c["property_id"] for c in checks])
